@@ -228,6 +228,13 @@ package vm
 //@ scan[C07.running.writers] C07 fieldwriters VirtualMachine.running: start stop Clone
 //@ scan[C07.startcount.writers] C07 fieldwriters VirtualMachine.startCount: start
 
+// C07: callFunction and importModule give the frame, instruction and stack pointers back through a DEFERRED call of
+// resumeFrame, so that they are also restored when a Go panic unwinds through them (a frame-stack overflow inside a
+// callback is recovered by Call / Run further up): a later Call on the same VM starts from the registers this call
+// found. Structural obligation (the defer statement exists); what resumeFrame restores is its own contract. Seed C07d
+// turned the deferred call into straight-line code after eval.
+//@ scan[C07.restore.deferred] C07 defercalls vm: (*VirtualMachine).callFunction=resumeFrame (*VirtualMachine).importModule=resumeFrame
+
 // C03: inventory of the go statements of the package.
 // start#1 is the context watcher: it waits on two channels and stores two atomics (no script code, no indexing).
 //@ scan[C03.goroutines.vm] C03 gostmts vm: (*VirtualMachine).start#1:bare
